@@ -15,6 +15,13 @@ import Vuego.Props.C18
 namespace Vuego.Props.C20
 open Go Vuego Vuego.Md
 
+/-! ### the parser the reference is compared with -/
+
+/-- the document tree the renderer walks is goldmark's, configured with the GFM extension and NOTHING else (regenerated from package
+    markdown: every option name it mentions): the CommonMark/GFM reference renderer is the right reference - no attribute syntax, no
+    typographer, no footnotes, no custom block or inline parsers that would take text away from the nodes modelled here -/
+theorem source_markdown_parser_is_gfm_only : Generated.mdConfigOptions = ["extension.GFM", "goldmark.WithExtensions"] := by decide
+
 /-! ### literal text -/
 
 /-- (1) a text segment is written to the output exactly as goldmark's writer produced it; no template is involved -/
